@@ -233,6 +233,7 @@ template <class T> static void selfcheck (int n, long long& checks)
 using namespace c04;
 
 void c04_alias_stage ();
+void c04_consteval_stage ();
 
 int main (int argc, char** argv)
 {
@@ -293,6 +294,7 @@ int main (int argc, char** argv)
     run_stage (ST_STREAM, std::vector<int>{K_STR_DEFAULT, K_STR_FIXED, K_STR_PREC3, K_STR_SCI},
                "operator<< of every (class template, non-character element type) x 5 stream states x 5 generic tuples, tokenised");
     c04_alias_stage ();
+    c04_consteval_stage ();
 
     R ().sample ("Vec4<int> a=[2 3 5 7] b=[11 13 17 19]: a/b, a/=b compared slot by slot with int division");
     R ().sample ("Color4<half> a=[2 3 5 NaN] s=-0: a*s, a*=s, s*a compared with half(float(a_i)*float(s))");
